@@ -2,7 +2,7 @@
    tables lr1.py builds for it (dumped by harness/lr_tables.py: symbols $=0 S=1 a=2
    b=3 S'=4), once as a defaultdict-backed and once as a dict-backed copy. *)
 From Coq Require Import Arith NArith PArith List Bool FMapPositive.
-Require Import EmbossV.LR.Driver EmbossV.LR.Sound EmbossV.LR.Bisim EmbossV.LR.Exec.
+Require Import EmbossV.LR.Driver EmbossV.LR.Sound EmbossV.LR.Bisim EmbossV.LR.Complete EmbossV.LR.Exec.
 Import ListNotations.
 Open Scope N_scope.
 
@@ -14,14 +14,20 @@ Definition ex_table_body : list (list N) :=
   [7;0]; [7;1;1]; [7;2;2]; [7;3;1;2]; [7;4;2;2]; [7;5;3;1;2]; [7;6;1;2;2]; [7;7;3;1;2];
   [8]].
 
+(* lr1.py's LR(1) item sets for the grammar [S -> a S b; S -> <empty>] (pcode 0 = S' -> S) *)
+Definition ex_items : list (list N) :=
+ [[20;0;0;0;0]; [20;0;1;0;0]; [20;0;2;0;0]; [20;1;0;1;0]; [20;2;1;0;3]; [20;2;1;1;0]; [20;2;2;0;3];
+  [20;3;1;2;0]; [20;4;1;0;3]; [20;4;1;1;3]; [20;4;2;0;3]; [20;5;1;3;0]; [20;6;1;2;3]; [20;7;1;3;3]].
+
 Definition ex_lines : list (list N) :=
   [[2;0;1]; [2;1;1;2;1;3]; [2;2;4;1]]
-  ++ [[1;1;0;1]] ++ ex_table_body          (* slot 1: action is a defaultdict *)
+  ++ [[1;1;0;1]] ++ ex_items ++ ex_table_body   (* slot 1: action is a defaultdict; with LR(1) item sets *)
   ++ [[1;2;0;0]] ++ ex_table_body          (* slot 2: action is a plain dict   *)
   (* slot 3: in state 2 on b, reduce by S -> a S b instead of S -> <empty> *)
   ++ [[1;3;0;1]] ++ [[3;0;0;1;0;2;0;2]; [3;1;0;2;0]; [3;2;2;0;4;3;1;1]] ++ skipn 3 ex_table_body
   ++ [[9;1;1;1;0]]
-  ++ [[11;0;0]; [11;1;1]; [11;2;2]; [11;3;3]; [11;4;4]; [11;5;5]; [11;6;6]; [11;7;7]].
+  ++ [[11;0;0]; [11;1;1]; [11;2;2]; [11;3;3]; [11;4;4]; [11;5;5]; [11;6;6]; [11;7;7]]
+  ++ [[21;1;1;2]].                         (* FIRST certificate: S nullable, FIRST(S) = {a} *)
 
 Definition ex_state := final ex_lines.
 Definition exG := slot_grammar ex_state 1.
@@ -30,6 +36,8 @@ Definition exC := slot_cert ex_state 1.
 Definition exT2 := slot_tables ex_state 2.
 Definition exTbad := slot_tables ex_state 3.
 Definition exR := x_rel ex_state.
+Definition exI := slot_items ex_state 1.
+Definition exF := x_first ex_state.
 
 Example ex_check_sound : check_sound exG exT exC = true.
 Proof. vm_compute. reflexivity. Qed.
@@ -80,4 +88,26 @@ Lemma bisim_check_discriminates :
 Proof.
   exists exR, exTbad, exT, [2;3], 100%nat. split; [exact ex_bisim_rejects_bad|].
   vm_compute. discriminate.
+Qed.
+
+Example ex_check_complete : check_complete exG exT exI exF = true.
+Proof. vm_compute. reflexivity. Qed.
+
+(* dropping one reduce action (state 2 on b) makes the tables incomplete, and the checker says so *)
+Definition exTincomplete : tables :=
+  set_action exT 2 [(2, Shift 4)].
+
+Example ex_check_complete_rejects : check_complete exG exTincomplete exI exF = false.
+Proof. vm_compute. reflexivity. Qed.
+
+Example ex_incomplete_rejects_sentence : run exTincomplete 100 [2;3] = Rejected 0 1 3 2 [2].
+Proof. vm_compute. reflexivity. Qed.
+
+Lemma check_complete_nonvacuous :
+  exists G T I F t toks, check_complete G T I F = true /\ derives G (g_start G) t 0%nat toks /\ toks <> [].
+Proof.
+  exists exG, exT, exI, exF.
+  eexists. exists [2;2;3;3]. split; [exact ex_check_complete|]. split; [|discriminate].
+  eapply run_sound; [exact ex_check_sound| |exact ex_accepts].
+  vm_compute. intros [H|[H|[H|[H|[]]]]]; discriminate.
 Qed.
